@@ -81,7 +81,7 @@ def _edit(net, g, cnt):
             net[el].drop(g.C(list(net[el].index)), inplace=True)
             b = int(g.C(list(net.bus.index)))
             (pp.create_load if el == "load" else pp.create_sgen)(net, b, g.R(0, 0.5), g.R(-0.1, 0.1))
-            cnt["swap_edits"] = cnt.get("swap_edits", 0) + 1
+            cnt["swap_edits"] += 1
     elif kind == "remove":
         el = g.C(["load", "sgen"])
         if len(net[el]) > 1:
@@ -164,6 +164,8 @@ def _compare(name, h, s, kw):
             continue
         if not isinstance(tb, pd.DataFrame) or ta.shape != tb.shape or list(ta.columns) != list(tb.columns):
             return "%s has another shape than on the fresh copy" % key
+        if not ta.index.equals(tb.index):
+            return "%s has the row labels %s, on the fresh copy %s" % (key, list(ta.index)[:12], list(tb.index)[:12])
         for c in ta.columns:
             if not pd.api.types.is_numeric_dtype(ta[c]) or not pd.api.types.is_numeric_dtype(tb[c]):
                 continue
@@ -214,7 +216,7 @@ def _find_cut(net, g):
     return best
 
 
-COUNTERS = ["swap_edits", "restore_after_blackout", "restore_with_internal_bus", "compared_calcs", "init_results_runs", "init_results_after_nan", "dc_runs", "sc_runs", "edits", "switch_edits",
+COUNTERS = ["results_after_swap", "swap_edits", "restore_after_blackout", "restore_with_internal_bus", "compared_calcs", "init_results_runs", "init_results_after_nan", "dc_runs", "sc_runs", "edits", "switch_edits",
             "failed_calcs_in_history", "alternate_root"]
 
 
@@ -244,10 +246,14 @@ def run_case(seed, tier, case_no):
     script, script_at = [], (g.I(0, 8) if g.B(0.5) else -1)
     for step in range(n_steps):
         if step == script_at:
-            cut = _find_cut(net, g)
-            if cut is not None:
-                kw0 = {"tolerance_mva": 1e-10, "calculate_voltage_angles": g.B(0.4)}
-                script = [("set", cut, False), ("calc", kw0), ("set", cut, True), ("results", cut)]
+            kw0 = {"tolerance_mva": 1e-10, "calculate_voltage_angles": g.B(0.4)}
+            if g.B(0.3):
+                # calculate - replace one load / sgen by a new one (same table length, other index) - calculate from the results
+                script = [("calc", kw0), ("swap",), ("results_swap",)]
+            else:
+                cut = _find_cut(net, g)
+                if cut is not None:
+                    script = [("set", cut, False), ("calc", kw0), ("set", cut, True), ("results", cut)]
         forced = script.pop(0) if script else None
         if forced is not None and forced[0] == "set":
             net[forced[1][0]].at[forced[1][1], forced[1][2]] = forced[2]
@@ -255,6 +261,15 @@ def run_case(seed, tier, case_no):
             cnt["switch_edits"] += 1
             hist.append("edit:%s %s[%s]" % ("restore" if forced[2] else "cut", forced[1][0], forced[1][1]))
             topo_since += 1
+            continue
+        if forced is not None and forced[0] == "swap":
+            el = g.C(["load", "sgen"])
+            if len(net[el]) > 1:
+                net[el].drop(g.C(list(net[el].index)), inplace=True)
+                (pp.create_load if el == "load" else pp.create_sgen)(net, int(g.C(list(net.bus.index))), g.R(0, 0.5), g.R(-0.1, 0.1))
+                cnt["swap_edits"] += 1
+            cnt["edits"] += 1
+            hist.append("edit:swap " + el)
             continue
         if forced is None and g.B(0.55):
             r = _edit(net, g, cnt)
@@ -264,6 +279,12 @@ def run_case(seed, tier, case_no):
             continue
         if forced is not None and forced[0] == "calc":
             name, fn, kw, ref_kw = "runpp", pp.runpp, dict(forced[1]), dict(forced[1])
+        elif forced is not None and forced[0] == "results_swap":
+            if not (last_ok_ac and last_kw is not None):
+                continue
+            ref_kw = {k: v for k, v in last_kw.items() if k != "init"}
+            name, fn, kw = "runpp", pp.runpp, dict(ref_kw, init="results")
+            cnt["results_after_swap"] += 1
         elif forced is not None and forced[0] == "results":
             if not (last_ok_ac and had_nan and last_kw is not None):
                 continue
@@ -306,6 +327,16 @@ def run_case(seed, tier, case_no):
             from ..oracles import balance
             try:
                 both = all(max(abs(m) for _g, m, _s, _k, e in balance.nodal_mismatch(n_)[0] if e) < 1e-6 for n_ in (net, fresh))
+                # ... and it is another root only if the voltage profiles really differ (equal voltages with different result
+                # tables - stale rows, wrong labels - are no alternate root)
+                dva_ = np.abs((net.res_bus.va_degree.values - fresh.res_bus.va_degree.values + 180) % 360 - 180)
+                prof = bool(np.nanmax(np.abs(net.res_bus.vm_pu.values - fresh.res_bus.vm_pu.values)) > 1e-6 or np.nanmax(dva_) > 1e-5)
+                # (the other root may sit at an auxiliary / internal bus that res_bus does not show: then branch flows differ)
+                for el_, c_ in (("line", "p_from_mw"), ("trafo", "p_hv_mw"), ("trafo3w", "p_hv_mw")):
+                    if not prof and len(net[el_]) and net["res_" + el_].index.equals(fresh["res_" + el_].index):
+                        x_, y_ = net["res_" + el_][c_].values.astype(float), fresh["res_" + el_][c_].values.astype(float)
+                        prof = bool(np.nanmax(np.abs(x_ - y_) - 1e-5 * (1 + np.abs(x_)), initial=-1.) > 0)
+                both = both and prof and "row labels" not in msg and "another shape" not in msg
             except Exception:  # noqa
                 both = False
             if both:
